@@ -169,6 +169,22 @@ def triggers_of(program: dict, facts: dict[str, dict]) -> dict[str, list[str]]:
             _walk(st, lambda d: found.append(1) if d.get("fn") in CMP_OPS and d.get("args") and isinstance(d["args"][0], dict) and "lit" in d["args"][0] else None)
             if found:
                 hit("D51", sid)
+        if op in ("mutate", "filter", "summarize", "arrange", "group_by"):
+            # D50: a reference taken from a table at or below an alias whose input holds aggregate / window columns
+            # carries the function type it had before the subquery boundary
+            from .campaign import ancestors as _anc
+            by_id = {x["id"]: x for x in program["stmts"]}
+            refs = []
+            _walk(st, lambda d: refs.append(d["col"][0]) if "col" in d else None)
+            anc = _anc(program, st["src"]) if st.get("src") else set()
+            for a in anc:
+                if a in by_id and by_id[a]["op"] == "alias":
+                    below = _anc(program, a)
+                    has_aggwin = any(by_id[b]["op"] == "summarize" or (by_id[b]["op"] == "mutate" and (fn_ops(by_id[b]) & (AGG_OPS | WIN_OPS)))
+                                     for b in below if b in by_id)
+                    if has_aggwin and any(r in below for r in refs):
+                        hit("D50", sid)
+                        break
         if op == "mutate" and (ops & {"shift", "row_number"}):
             found = []
             _walk(st, lambda d: found.append(1) if d.get("fn") in ("shift", "row_number") and not d.get("arrange") else None)
